@@ -314,7 +314,7 @@ class Eval:
                 return a  # &[T;N] -> &[T] : identity on the value
             if kind.startswith("PointerCoercion"):
                 return a
-            return T("cast", kind, a, rv["to"])
+            return T("cast", kind, a, rv["to"], rv.get("from"))
         if "bin" in rv:
             return T("bin", rv["bin"], self.operand(rv["a"], st), self.operand(rv["b"], st))
         if "un" in rv:
@@ -456,7 +456,10 @@ class Eval:
             return
         root = place_root(d.a[0])
         if root is None or root not in self.assume:
-            return
+            # a computed value (e.g. the decoded tag byte) can be assumed too: keyed by its site-free term
+            root = ("@", strip_sites(d.a[0]))
+            if root not in self.assume:
+                return
         want = self.assume[root]
         # which ADT is switched on: from the discriminant statement in this block
         blk = self.fn.blocks[b]
@@ -555,7 +558,7 @@ _cache = {}
 
 
 def evaluate(fn, assume=None):
-    key = (id(fn), tuple(sorted((assume or {}).items())))
+    key = (id(fn), tuple(sorted((assume or {}).items(), key=lambda kv: (str(kv[0][0]), str(kv[0][1]), kv[1]))))
     ev = _cache.get(key)
     if ev is None:
         ev = Eval(fn, assume=assume)
